@@ -258,6 +258,7 @@ type DataField struct {
 }
 
 type World struct {
+	closureBound map[string]bool // fv_ symbols defined by a closure literal in this unit
 	dynTests map[string][]string // per interface sort: declared concrete dynamic-type tests (mutually exclusive)
 	decls     []string             // in order: declare-datatypes, declare-sort
 	datas     map[Sort]*DataDecl   // by sort name
